@@ -40,6 +40,12 @@ CLAIMED = {
             "round trips on a colour lattice, hue in [0,360) for every finite double"),
     "C32": ("E1+E2", "Kani/CBMC on invert / rotate_hue / set_alpha; MIR symbolic execution of the lighten/darken/fade closures",
             "bounded model checking (kernel scope): involution and cancellation laws for all in-range doubles"),
+    "C21": ("E2", "symbolic execution of handle_item's @error arm and of the destination Drop impls (MIR)",
+            "bounded model checking (dispatch scope): @error always fails the compilation; the Drop impls always commit their content; "
+            "one recorded finding (a commit error inside Drop is only printed, so content can be dropped silently)"),
+    "C36": ("E2", "symbolic execution of handle_item's comment arm (MIR), obligations decided by z3 and cvc5",
+            "bounded model checking (dispatch scope): which loud comments reach the output in which style, and that the emitted text is the "
+            "evaluated comment; one recorded finding (compressed style drops /*! comments too); parsing and re-indentation are outside"),
 }
 
 NOT_APPLICABLE = {
@@ -55,7 +61,6 @@ NOT_APPLICABLE = {
     "C18": "FormalArgs::eval / CallArgs over Scope and css::Value: same obstacle as C16",
     "C19": "recursive selector trees of Strings: any harness with one combinator level gave no verdict in 420 s; `&` resolution re-enters the parser",
     "C20": "tree transformation over css::Item/Rule with Drop-time commits; heap-rich, css::Value inside",
-    "C21": "same code as C20 (cssdest.rs Drop impls, transform.rs)",
     "C22": "selector trees (see C19)",
     "C23": "selector trees: compound-only transitivity took 275 s, one combinator level no verdict in 420 s",
     "C24": "selector algebra over the same trees; append re-enters the parser",
@@ -66,7 +71,6 @@ NOT_APPLICABLE = {
     "C33": "Formatted<Rgba>/<Hsla> Display impls: core::fmt (see C10)",
     "C34": "equality of two dispatch tables built at LazyLock init (BTreeMap, parser for defaults)",
     "C35": "metamorphic relation between two parses of rewritten sources: parser",
-    "C36": "comment handling is in the parser and the output buffer: whole-program",
     "C37": "Scope::do_use/expose over Mutex<BTreeMap>: same obstacle as C16",
     "C38": "agreement of whole-compilation entry points",
     "C39": "loader fault sequences over whole compilations",
